@@ -21,30 +21,30 @@ var avoidKnown = map[string]bool{
 	// "vide", "soun", "subt" and "clcp" as well: those tracks get hdlr vide/soun/subt with an nmhd box (ISO/IEC
 	// 14496-12 8.4.5: vmhd for video, smhd for audio, sthd for subtitle tracks) and "soun" gets tkhd volume 0.
 	// Generator: these four media types are replaced by their long names.
-	"mediaheader-from-mediatype-string": true,
+	"mediaheader-from-mediatype-string": false, // repaired in /repo (fix: 647e10f)
 	// AddEmptyTrack(ts, "stpp", lang) (the call of examples/initcreator) writes handler_type 'stpp': CreateHdlr has no
 	// case for it and falls into the "any four characters" default, CreateEmptyTrak gives the track an sthd box.
 	// ISO/IEC 14496-30 5.2 / 14496-12 12.6: subtitle tracks (sthd, XMLSubtitleSampleEntry) use handler 'subt'.
 	// Oracle: the handler relation is skipped for media type "stpp".
-	"stpp-handler-type": true,
+	"stpp-handler-type": false, // repaired in /repo (fix: 647e10f)
 	// SetWvttDescriptor builds WvttBox{} (not NewWvttBox()): data_reference_index 0. ISO/IEC 14496-12 8.5.2.2:
 	// the index ranges from 1 to the number of data references. Oracle: that relation is skipped for wvtt.
-	"wvtt-data-reference-index-0": true,
+	"wvtt-data-reference-index-0": false, // repaired in /repo (fix: fb97adc)
 	// SetAACDescriptor converts samplingFrequency with uint16(): 96000 -> 30464, 88200 -> 22664 in the sample entry.
 	// Generator: those two table frequencies are replaced by 48000.
 	"aac-samplerate-over-65535": true,
 	// Dec3Box.NumIndSub is a public field that neither the encoder uses (it writes len(EC3Subs)-1) nor the decoder
 	// sets: a dec3 with two independent substreams and NumIndSub=1 decodes to NumIndSub=0 (tree not equal).
 	// Generator: NumIndSub is left 0.
-	"dec3-numindsub-not-decoded": true,
+	"dec3-numindsub-not-decoded": false, // repaired in /repo (fix: 095974d)
 	// avc.DecodeAVCDecConfRec leaves ChromaFormat 0 (monochrome) for the profiles whose record has no chroma_format
 	// field (66, 77, 88), CreateAVCDecConfRec (and H.264 7.4.2.1.1: chroma_format_idc inferred to be 1) says 1: the
 	// decoded avcC differs from the built one. Oracle: that one field difference is skipped for those profiles.
-	"avcc-chroma-not-inferred-on-decode": true,
+	"avcc-chroma-not-inferred-on-decode": false, // repaired in /repo (fix: e907a20)
 	// SetEC3Descriptor indexes AC3SampleRates[fscod] (3 entries): fscod=3 (E-AC-3: reduced sample rate signalled by
 	// fscod2, ETSI TS 102 366 E.1.3.1.4/5; dec3 copies fscod) panics with index out of range although the function
 	// returns an error. Generator: fscod 0..2.
-	"ec3-fscod3-panic": true,
+	"ec3-fscod3-panic": false, // repaired in /repo (fix: f4918d5)
 }
 
 func avoidGen(name string, hit bool) bool {
